@@ -16,6 +16,7 @@
 #include <pistache/peer.h>
 #include <pistache/transport.h>
 
+#include <cctype>
 #include <cstring>
 #include <ctime>
 #include <iomanip>
@@ -434,7 +435,10 @@ namespace Pistache::Http
             // This is the first time we are reading the payload
             else
             {
-                message->body_.reserve(contentLength);
+                // Content-Length comes from the peer: reserve no more than what has
+                // actually been received so far
+                const size_t received = cursor.remaining();
+                message->body_.reserve(contentLength < received ? contentLength : received);
                 if (!readBody(contentLength))
                     return State::Again;
             }
@@ -456,8 +460,12 @@ namespace Pistache::Http
 
                 char* end;
                 const char* raw = chunkSize.rawText();
-                auto sz         = std::strtol(raw, &end, 16);
-                if (*end != '\r')
+                // strtol() skips leading white space, CR and LF included: an empty
+                // size line would make it scan the bytes that follow the line
+                if (!std::isxdigit(static_cast<unsigned char>(*raw)))
+                    throw std::runtime_error("Invalid chunk size");
+                auto sz = std::strtol(raw, &end, 16);
+                if (*end != '\r' || sz < 0)
                     throw std::runtime_error("Invalid chunk size");
 
                 // CRLF
@@ -473,23 +481,28 @@ namespace Pistache::Http
             if (size == 0)
                 return Final;
 
-            message->body_.reserve(size);
             StreamCursor::Token chunkData(cursor);
-            const ssize_t available = cursor.remaining();
+            const size_t available = cursor.remaining();
+            // data bytes of this chunk that have not been appended yet
+            const size_t wanted = static_cast<size_t>(size - alreadyAppendedChunkBytes);
 
-            if (available + alreadyAppendedChunkBytes < size + 2)
+            if (available < wanted || available - wanted < 2)
             {
-                cursor.advance(available);
-                message->body_.append(chunkData.rawText(), available);
-                alreadyAppendedChunkBytes += available;
+                // The rest of the chunk (data + CRLF) is not there yet: take the
+                // data bytes that are, and leave a partial CRLF for the next call
+                const size_t take = available < wanted ? available : wanted;
+                cursor.advance(take);
+                message->body_.append(chunkData.rawText(), take);
+                alreadyAppendedChunkBytes += static_cast<ssize_t>(take);
                 return Incomplete;
             }
-            cursor.advance(size - alreadyAppendedChunkBytes);
+
+            cursor.advance(wanted);
 
             // trailing EOL
             cursor.advance(2);
 
-            message->body_.append(chunkData.rawText(), size - alreadyAppendedChunkBytes);
+            message->body_.append(chunkData.rawText(), wanted);
 
             return Complete;
         }
